@@ -248,6 +248,12 @@ fn reply_sweep(thorough: bool) -> (u64, Vec<Violation>) {
             ("\"a\",\"b\"", vec!["\"a\" ,\"b\"", "\"a\", \"b\"", " \"a\" , \"b\" "]),
             ("7:8", vec!["7 :8", "7: 8"]),
             (",hello", vec!["  , hello"]),
+            // blanks that are not ASCII are blanks all the same
+            ("\"yes\"", vec!["\"yes\"\u{3000}", "\u{2003}\"yes\"", "\"yes\"\u{a0}"]),
+            ("7,", vec!["7,\u{a0}", "7\u{a0},"]),
+            (",21", vec!["\u{a0}, 21", "\u{3000},21"]),
+            ("5", vec!["5\u{a0}", "\u{3000}5", "\u{2003}5\u{2003}"]),
+            ("\"A, B\"", vec!["\u{2003}\"A, B\""]),
         ];
         for t in &targets {
             for (plain, variants) in &forms {
